@@ -24,6 +24,7 @@ type verifVector struct {
 	Params  map[string]int  `json:"params"`
 	Nondets []verifVecEntry `json:"nondets"`
 	Loose   bool            `json:"loose"` // translator validation: values are taken in order regardless of tags
+	Yields  []string        `json:"yields"` // order in which goroutines passed the stubs' scheduling points
 }
 
 var verifReached []string
@@ -157,3 +158,8 @@ func verifWedgeAtUnwind(msg string) {}
 // verifLastTimer is the duration handed to the last time.AfterFunc (engine);
 // natively the timer cannot be observed and the fallback is returned.
 func verifLastTimer(fallback int64) int64 { return fallback }
+
+// verifYieldTag is a scheduling point inside an environment stub. The engine
+// forks over who continues; the order taken on the reported path is replayed
+// natively: a goroutine waits here until it is its tag's turn (bounded wait).
+func verifYieldTag(tag string) { verifNativeTurn(tag) }
